@@ -27,7 +27,8 @@ MANIFEST = dict(
   note=TRUST + "not modelled (parameters of the model / oracle only): the random variates and the eigendecomposition of MultiVariateNormalDistribution::update (the model takes the sampled offspring and the eigenvectors as inputs); "
        "cov_update_psd is stated on Mathlib matrices, the list-based covUpdate of the executable model is the same formula but the two are not formally connected; "
        "the noise-handling branch of CMA::step (function.isNoisy()) is not modelled; CMSA, ElitistCMA's covariance update, VD-CMA, CEM and simplex downhill have no Lean model — they are covered by the harness oracle only; "
-       "convergence on the sphere is numerical (value <= 1e-10 within the budget). Observation (not a violation of C11 as stated): CMA/CMSA rank offspring by unpenalizedFitness (Individual::FitnessOrdering), so the PenalizingEvaluator penalty never influences selection.",
+       "convergence on the sphere is numerical (value <= 1e-10 within the budget). Known findings on the unchanged tree (known_findings.json, findings_proposed/C11.md): F12 VD-CMA turns NaN after stagnating, "
+       "F13 the CMA covariance matrix drifts away from symmetry (relative asymmetry > 1e-9 after ~100 generations; oracle tolerance 1e-9*sqrt(CiiCjj)+1e-16). Observation (not a violation of C11 as stated): CMA/CMSA rank offspring by unpenalizedFitness (Individual::FitnessOrdering), so the PenalizingEvaluator penalty never influences selection.",
   technique="Lean 4 proofs (induction over generations, stable-sort congruence, Mathlib PosSemidef) + differential correspondence and property oracle on the C++ (ASan/UBSan)",
   design="§6 C11")
 FINISH = dict(level="proof",
@@ -80,7 +81,10 @@ def gen_x0(r, n, box):
 
 
 def gen_opt(r, n, boxed):
-    kind = r.choice(["cma", "cma", "cmsa", "ecma"] if boxed else ["cma", "cma", "cma", "cmsa", "ecma", "vdcma", "cem", "simplex"])
+    # soft boxes only for CMA and CMSA, which rank by the unpenalized fitness; ElitistCMA accepts on the *penalized*
+    # fitness and reports the unpenalized one, so with penalties neither monotonicity of the reported value nor rank
+    # invariance can be expected of it (and it refuses declared constraints anyway)
+    kind = r.choice(["cma", "cma", "cmsa"] if boxed else ["cma", "cma", "cma", "cmsa", "ecma", "vdcma", "cem", "simplex"])
     if kind == "cma":
         if r.chance(1, 2):
             lam = r.range(4, 14); mu = r.range(1, lam - 1)
@@ -91,10 +95,8 @@ def gen_opt(r, n, boxed):
 
 
 def gen_run_case(r, maxsteps):
-    while True:
-        ops, n, kind, box = gen_objective(r)
-        okind, oline = gen_opt(r, n, box is not None)
-        break
+    ops, n, kind, box = gen_objective(r)
+    okind, oline = gen_opt(r, n, box is not None)
     ops.append(oline)
     ops.append("run %d %d %s %s" % (r.range(1, 10 ** 6), r.range(1, maxsteps), fb(INF), nums(gen_x0(r, n, box))))
     return ops
@@ -199,6 +201,8 @@ def classify(ops, res):
         return f"crash:{info['opt']}:{tag[:40]}", f"harness aborted ({tag}) on ops {ops}"
     if info["opt"] == "vdcma" and ("step-size-not-positive" in tags or "non-finite" in tags):
         return ("F12:vdcma-nan-after-stagnation", f"VD-CMA reports NaN point / value / step size after stagnating on the sphere; ops {ops}")
+    if info["opt"] == "cma" and "covariance-not-symmetric" in tags:
+        return ("F13:cma-covariance-asymmetry", f"CMA covariance matrix is not symmetric beyond rounding ({res.oracle[0][-150:]}); ops {ops}")
     if tags:
         return f"oracle:{'+'.join(tags)}:{info['opt']}:{info['obj']}{'+box' if info['box'] else ''}", f"property oracle failed ({tags}: {res.oracle[0][-160:]}) on ops {ops}"
     return f"mismatch:{res.why}:{info['opt']}", f"model and implementation disagree ({res.why}) at line {res.diff_at} of ops {ops}"
